@@ -147,6 +147,45 @@ fn main() {
 				}
 			}
 		}
+		"stdedge" => {
+			// exploration aid: run N boundary-heavy std calls, list panics and slow ones
+			use jrsim::{pool, rng::Rng};
+			let n: usize = args.get(2).and_then(|s| s.parse().ok()).unwrap_or(1000);
+			let mut rng = Rng::new(seed);
+			let mut seen = std::collections::BTreeMap::<String, (usize, String)>::new();
+			static LAST: std::sync::Mutex<String> = std::sync::Mutex::new(String::new());
+			std::panic::set_hook(Box::new(|i| {
+				*LAST.lock().unwrap() = i.location().map(|l| format!("{}:{}", l.file(), l.line())).unwrap_or_default();
+			}));
+			for _ in 0..n {
+				let p = pool::gen_family(&mut rng, "std-edge");
+				if std::env::var_os("STDEDGE_ECHO").is_some() {
+					eprintln!("RUN {}", p.code);
+				}
+				let t = Instant::now();
+				let p2 = p.clone();
+				let o = std::thread::Builder::new()
+					.stack_size(16 << 20)
+					.spawn(move || pool::Host::new().run(&p2, None))
+					.expect("spawn")
+					.join();
+				let dt = t.elapsed().as_secs_f64();
+				let key = match o {
+					Ok(o) if o.class == "panic" => format!("PANIC {}", o.text.chars().take(160).collect::<String>()),
+					Ok(_) if dt > 0.5 => format!("SLOW {dt:.1}s"),
+					Ok(_) => continue,
+					Err(e) => format!("PANIC at {} {:?}", LAST.lock().unwrap(), e.downcast_ref::<String>().map(String::as_str).or(e.downcast_ref::<&str>().copied()).map(|m| m.chars().take_while(|c| !c.is_ascii_digit()).collect::<String>())),
+				};
+				let e = seen.entry(key).or_insert((0, p.code.clone()));
+				e.0 += 1;
+				if p.code.len() < e.1.len() {
+					e.1 = p.code.clone();
+				}
+			}
+			for (k, (c, code)) in seen {
+				println!("{c:>5} x {k}\n        <- {code}");
+			}
+		}
 		"worker" => std::process::exit(checks::worker(&args[2..])),
 		_ => usage(),
 	}
